@@ -12,4 +12,5 @@ CONSTANTS
   Locs <- LocLocal
   FailSet <- Up
   SysVals <- SysNone
+  TestReqs <- NoTests
 INVARIANTS TypeOK StoredValid Decided
